@@ -1010,11 +1010,12 @@ fn c17_text_case(kind: &str, text: &str) -> Option<String> {
                 return Some(m);
             }
             if kind != "parse" {
-                // SMT-LIB characters are kept unchanged
+                // text made of SMT-LIB characters only is kept unchanged; what replaces (or drops) other characters
+                // is not prescribed by the statement
                 let src: Vec<u32> = if kind == "char" { text.chars().take(1).map(|c| c as u32).collect() } else { text.chars().map(|c| c as u32).collect() };
                 let got = codes(&s);
-                if got.len() != src.len() || src.iter().zip(got.iter()).any(|(&a, &b)| a <= MAX_CHAR && a != b) {
-                    return Some(format!("{} constructor on {:?} = {:?}: a valid character was changed or the length differs", kind, text, got));
+                if src.iter().all(|&a| a <= MAX_CHAR) && got != src {
+                    return Some(format!("{} constructor on {:?} = {:?}: valid characters were not kept unchanged", kind, text, got));
                 }
             }
             None
@@ -1321,7 +1322,7 @@ fn c17_meta(_ctx: &Ctx) -> Meta {
     Meta {
         level: "exploration",
         rule: "every constructor (From<&str>, From<String>, From<char>, From<u32>, From<&[u32]>, From<&[u32;N]>, From<Vec<u32>>, parse_smt_literal) is applied to every listed input; the result must satisfy is_good(), keep every valid input character unchanged (integer constructors: replace values above 0x2FFFF by 0xFFFD), and ReManager::str / str_in_re must accept it without panicking; closure: every str_* and regex-replace operation applied to all pairs of a pool of good strings, for 1-2 rounds (states = argument pairs, transitions = operation applications); non-trivial = inputs containing a value above 0x2FFFF".into(),
-        assumptions: vec!["the replacement chosen for Rust characters above U+2FFFF is not prescribed: only 'nothing above 0x2FFFF, valid characters unchanged, same length' is required of the &str/String/char constructors".into()],
+        assumptions: vec!["what happens to Rust characters above U+2FFFF is not prescribed: only 'nothing above 0x2FFFF in the result, and text without such characters is kept unchanged' is required of the &str/String/char constructors".into()],
         exhaustive: true,
         space: "texts of length <= 2 (thorough 3) over 13 scalar values incl. U+30000, U+3FFFF, U+E0000, U+10FFFF; escape attempts combined with out-of-range characters (a large character after every kind of escape prefix); all literal texts of the C08 families; Rust chars at a stride over the whole scalar range; integer sequences of length <= 3 over 10 values incl. 0x30000, 0x3FFFF, 0x40000, u32::MAX; every integer in bands around 0x2FFFF and 0x3FFFF..0x40010 through the Vec fast path; closure of the string operations over a pool of good strings".into(),
     }
